@@ -131,6 +131,10 @@ class OpenCtx(BaseCtx):
             self.stage = "wait_connect"
             return self.choose(rng)
         if self.stage == "established":
+            if rng.chance(0.08):
+                # the operator looks at the peer (a read must not change what later sessions are offered)
+                self.stats["gen:rest_state_read_in_session"] += 1
+                return ["rest", "GET", base.URL + rng.pick(["state", "statistic"]), "ok"]
             if self.updates_left > 0:
                 self.updates_left -= 1
                 return ["send", k, self.peer_update(rng).hex(), []]
@@ -231,6 +235,14 @@ class OpenCtx(BaseCtx):
             attrs["local_pref"] = 100
         if rng.chance(0.3):
             attrs["aggregator"] = (rng.pick(pool), "10.9.9.9")
+        if not as4 and rng.chance(0.1):
+            # an OLD-speaker style UPDATE: AS4_PATH (and AS4_AGGREGATOR) present, here even BEFORE the AS_PATH
+            # (attribute order is free): the AS_PATH is still 2-octet
+            tl = rp.decode_attr_list(rp.encode_attrs(attrs, False))
+            as4path = rp.attr_tlv(0xC0, 17, bytes([2, 2]) + (70000).to_bytes(4, "big") + (4200000000).to_bytes(4, "big"))
+            raw = as4path + b"".join(rp.attr_tlv(fl, c, v) for fl, c, v in tl)
+            self.stats["gen:as4_path_before_as_path"] += 1
+            return rp.encode_update([], None, [rng.pick(base.PREFIX_POOL)], raw_attrs=raw)
         if "aggregator" not in attrs and rng.chance(0.08):
             # an AGGREGATOR sized for the OTHER AS width than this session negotiated: malformed here, whatever
             # its size would mean elsewhere
